@@ -64,6 +64,29 @@ def stopper_cases(col, tier):
     return distinct
 
 
+def reconfigured_stopper_cases(col):
+    """ONE Stopper object whose settings are changed between queries (optim_flat itself widens and restores `patience` on the object it is handed): every
+    query follows the documented rule with the settings the object has AT THAT TIME - same history shape, eager calls and calls under jit"""
+    h = np.array([5.0, 4.0, 3.5, 3.4, 3.39, 3.38, 3.38, 3.37, 3.37, 3.37], np.float32)
+    hj = jnp.asarray(h)
+    st = Stopper(max_iter=10, patience=2, atol=0.05, rtol=0.0)
+    bad = None
+    for p, atol in ((2, 0.05), (6, 0.05), (3, 0.5), (2, 0.0), (8, 0.05)):
+        st.patience, st.atol = p, atol
+        for i in range(10):
+            want = pseudo_stop(p, i, h, atol, 0.0)
+            got = bool(st.stop_early(i, hj))
+            got_j = bool(jax.jit(lambda i_, h_: st.stop_early(i_, h_))(i, hj))
+            if got != want or got_j != want:
+                bad = bad or f"patience set to {p}, atol {atol}, i={i}: stop_early={got} (under jit {got_j}), documented rule={want}"
+            if i - p + 1 >= 0:
+                wb = i - p + 1 + int(np.argmin(h[i - p + 1: i + 1]))
+                gb = int(st.which_best_in_recent_history(i, hj))
+                if gb != wb:
+                    bad = bad or f"patience set to {p}, i={i}: which_best_in_recent_history={gb}, argmin of the window={wb}"
+    col.add(None if bad is None else {"sig": "native::stopper::settings_changed_on_one_object", "what": bad, "input": {"loss_history": h.tolist(), "settings": "(patience, atol) = (2, .05), (6, .05), (3, .5), (2, 0), (8, .05) on one object"}})
+
+
 def plain_int_loop_cases(col):
     """Stopper driven by a hand-written loop with a plain Python int counter and a numpy history (the documented `i: int | Array`): continue_ is the
     negation of stop_now, and the loop ends at the iteration limit - also for patience >= max_iter ('no early stopping')"""
@@ -199,6 +222,46 @@ def run_optim(col, name, n, batch_size, validation, prune, restore, stopper, opt
     return inp
 
 
+def default_stopper_history_case(col):
+    """two calls that omit `stopper`: the first without a validation model, aborted by the documented ValueError (response declared with lsl.Var instead of
+    lsl.obs: the log-probability does not decompose); the second, valid and WITH a validation model, must stop where a fresh Stopper(max_iter=10_000,
+    patience=10) - the documented default - stops"""
+    import contextlib, io
+    import optax
+    import tensorflow_probability.substrates.jax.distributions as tfd
+    import liesel.model as lsl
+    coef = lsl.param(jnp.zeros(2), lsl.Dist(tfd.Normal, loc=0.0, scale=10.0), name="coef")
+    xvar = lsl.obs(jnp.ones((4, 2)), name="x")
+    bad_y = lsl.Var(jnp.ones(4), lsl.Dist(tfd.Normal, loc=lsl.Var(lsl.Calc(jnp.dot, xvar, coef), name="mu"), scale=1.0), name="y")  # the user forgot observed=True
+    bad = lsl.GraphBuilder().add(bad_y).build_model()
+    with contextlib.redirect_stderr(io.StringIO()):
+        try:
+            optim_flat(bad, ["coef"], progress_bar=False)
+            aborted = False
+        except ValueError:
+            aborted = True
+        train, val = make_models(12, 3)
+        res_default = optim_flat(train, ["coef"], optimizer=optax.adam(0.3), model_validation=val, progress_bar=False)
+        train2, val2 = make_models(12, 3)
+        res_fresh = optim_flat(train2, ["coef"], optimizer=optax.adam(0.3), stopper=Stopper(max_iter=10_000, patience=10), model_validation=val2, progress_bar=False)
+        # ONE explicit stopper object for a fit without and then a fit with a validation model (optim_flat widens its patience in the first and restores it)
+        shared = Stopper(max_iter=400, patience=10)
+        t3, v3 = make_models(12, 3)
+        optim_flat(t3, ["coef"], optimizer=optax.adam(0.3), stopper=shared, progress_bar=False)
+        t4, v4 = make_models(12, 3)
+        res_shared = optim_flat(t4, ["coef"], optimizer=optax.adam(0.3), stopper=shared, model_validation=v4, progress_bar=False)
+        t5, v5 = make_models(12, 3)
+        res_own = optim_flat(t5, ["coef"], optimizer=optax.adam(0.3), stopper=Stopper(max_iter=400, patience=10), model_validation=v5, progress_bar=False)
+    if int(res_shared.iteration) != int(res_own.iteration) or int(res_shared.iteration_best) != int(res_own.iteration_best):
+        col.add({"sig": "native::optim::stopper_object_reused", "what": f"a Stopper(max_iter=400, patience=10) used for a fit without validation model and then for one with: the second fit ran {int(res_shared.iteration)} iterations "
+                 f"(best {int(res_shared.iteration_best)}); with a fresh stopper of the same settings it stops at {int(res_own.iteration)} (best {int(res_own.iteration_best)})", "input": {"calls": ["optim_flat(no validation, stopper=s)", "optim_flat(validation, stopper=s)"]}})
+        return
+    ok = aborted and int(res_default.iteration) == int(res_fresh.iteration) and int(res_default.iteration_best) == int(res_fresh.iteration_best)
+    col.add(None if ok else {"sig": "native::optim::default_stopper_after_an_aborted_call", "what": f"after an aborted call without validation model (aborted={aborted}), a call with the default stopper ran "
+                             f"{int(res_default.iteration)} iterations (best {int(res_default.iteration_best)}); a fresh Stopper(max_iter=10000, patience=10) stops at {int(res_fresh.iteration)} (best {int(res_fresh.iteration_best)})",
+                             "input": {"calls": ["optim_flat(model whose log-prob does not decompose) -> ValueError", "optim_flat(valid model, model_validation=...)"]}})
+
+
 def batch_index_cases(col):
     """_generate_batch_indices directly: for every (n, batch size) incl. n // batch_size == 1 with batch_size < n - each call gives
     n // batch_size disjoint batches of the batch size, and over different keys EVERY observation index gets into some batch (the
@@ -226,7 +289,15 @@ def bounded(tier, seed):
         batch_index_cases(col)
     except Exception as e:
         col.add({"sig": f"native::optim::exception::{type(e).__name__}", "what": str(e)[:200], "input": {"scenario": "batch indices"}})
+    try:
+        default_stopper_history_case(col)
+    except Exception as e:
+        col.add({"sig": f"native::optim::exception::{type(e).__name__}", "what": str(e)[:200], "input": {"scenario": "default stopper after an aborted call"}})
     distinct = stopper_cases(col, tier)
+    try:
+        reconfigured_stopper_cases(col)
+    except Exception as e:
+        col.add({"sig": f"native::stopper::exception::{type(e).__name__}", "what": str(e)[:200], "input": {"scenario": "settings changed on one Stopper object"}})
     try:
         plain_int_loop_cases(col)
     except Exception as e:
@@ -251,7 +322,7 @@ def bounded(tier, seed):
         "rule": ("BOUNDED: real Stopper.stop_early/stop_now/continue_/which_best (jit+vmap) on every loss history over {0,0.5,1}^n, "
                  f"n in {(3, 5) if tier == 'quick' else (1, 2, 3, 4, 5, 6)}, patience 1..min(4,n), every i, several tolerance pairs, against the documented pseudo-code; hand-written loops with a plain Python int counter (continue_ = not stop_now, loop ends at the limit, patience below and at max_iter); "
                  f"real optim_flat on {len(scen)} small regression scenarios (validation / none, prune / pad, restore / last, minibatch with batch size "
-                 "not dividing n; batches recorded through a wrapper of _generate_batch_indices; recorded train / validation losses recomputed in closed form from the training / (distinct) validation data at the recorded positions). distinct = (history, i, patience, tolerances) tuples + scenarios."),
+                 "not dividing n; batches recorded through a wrapper of _generate_batch_indices; recorded train / validation losses recomputed in closed form from the training / (distinct) validation data at the recorded positions). one Stopper object re-configured between queries and re-used across two fits; a call with the default stopper after a call without validation model that was aborted by the documented ValueError. distinct = (history, i, patience, tolerances) tuples + scenarios."),
         "samples": samples[:2],
         "exhaustive": False,
         "violations": col.violations,
